@@ -60,12 +60,33 @@ def pick_k(ctx, ks=(1, 2, 2, 3, 3), kt=(1, 2, 2, 3, 3, 4, 5)):
 
 
 # =============================================================================== C01
+_BUFFERS = {}
+
+
+def reused_buffers(g, tbl):
+    """the graph and the table written INTO long-lived arrays that earlier cases used for other graphs / tables (one buffer
+    per order): what a caller does who updates a graph or redraws a table in place. Anything the library remembered about
+    the object (by identity) is stale now."""
+    extra = {}
+    a = _BUFFERS.setdefault(("acc", g.k), np.full((g.n, 4), -1, dtype=int))
+    a[:] = np.array(g.rows(), dtype=int)
+    extra["acc"] = a
+    if tbl is not None:
+        t = _BUFFERS.setdefault(("tbl", g.k), np.zeros((g.n, 4), dtype=int))
+        t[:] = np.array(tbl, dtype=int)
+        extra["tbl"] = t
+    return extra
+
+
 def storage_variants(rng, g, tbl):
     """the same graph and the same table held in other NumPy storage types (narrow signed types for the accessor,
     signed and UNSIGNED types for a table - its rows are permutations of 0..3 whatever the type): an `extra` for ctx.corr,
     or None for the default int64 objects."""
-    if rng.random() < 0.6:
+    c = rng.random()
+    if c < 0.5:
         return None
+    if c < 0.7:
+        return reused_buffers(g, tbl)
     extra = {}
     if tbl is not None:
         extra["tbl"] = np.array(tbl, dtype=rng.choice([np.uint8, np.uint8, np.int8, np.uint16, np.int32, np.uint64, np.int64]))
@@ -841,11 +862,14 @@ def C11(ctx):
             k = rng.choice([3, 4, 5, 5, 6, 6, 7])
             n = 4 ** k
         if kind == "local":
-            run, gc, motifs = rand_cfg(rng, k)
-            st, flt = proto.guarded(lambda: mk(k, run, gc, motifs))
+            # the filter's own window need not be the graph's observed length (a 5-nt homopolymer / GC screen on 3-mers):
+            # the i-th cell is still the filter's verdict on the i-th K-MER
+            kw_ = k if rng.random() < 0.5 else max(1, k + rng.choice([-1, 1, 2, 3]))
+            run, gc, motifs = rand_cfg(rng, kw_)
+            st, flt = proto.guarded(lambda: mk(kw_, run, gc, motifs))
             if st != "ok":
                 continue
-            table = "".join("1" if flt.valid(gen.kmer(i, k)) else "0" for i in range(n))
+            table = "".join("1" if oracle.filter_ref(kw_, run, motifs, gc, gen.kmer(i, k)[-kw_:]) else "0" for i in range(n))
         else:
             p = 0.0 if kind == "empty" else rng.choice([0.02, 0.3, 0.6, 0.9, 1.0])
             table = "".join("1" if rng.random() < p else "0" for _ in range(n))
@@ -853,6 +877,10 @@ def C11(ctx):
                 ones = set(rng.sample(range(n), rng.choice([1, 1, 2, 3])))
                 table = "".join("1" if i in ones else "0" for i in range(n))
             flt = (KwFilter if kind == "kw" else proto.TableFilter)(table)
+            if rng.random() < 0.4:
+                # attributes a user-defined filter may happen to carry say nothing about which strings it is asked
+                flt.observed_length = k + rng.choice([-1, 1, 2])
+                flt.k = 1
         st, res = proto.guarded(lambda: SW.find_vertices(k, flt))
         key = "fv %d %s" % (k, table)
         out = ctx.corr(key)
@@ -1786,6 +1814,21 @@ def C17(ctx):
         ctx.case("cap " + g.token(), pre and abs(rho - round(rho)) > 1e-6, "precondition" if pre else "no-precondition")
 
 
+def _same_value(a, b):
+    """equality of two snapshots of a module-level object that may hold NumPy arrays (where `==` is element-wise)."""
+    try:
+        r = a == b
+        if isinstance(r, bool):
+            return r
+    except Exception:  # noqa
+        pass
+    import pickle
+    try:
+        return pickle.dumps(a) == pickle.dumps(b)
+    except Exception:  # noqa
+        return repr(a) == repr(b)
+
+
 # =============================================================================== C18
 def C18(ctx):
     rng = ctx.rng
@@ -1805,7 +1848,9 @@ def C18(ctx):
                     val = d + r_ if r_ > 1 else 1          # first digit d, then quotient 1
                     bits, fast = oracle.bits_be(val, val.bit_length() + rng.randrange(2)), 0
                 key = "enc %s %s 1 %s %d 0" % (g.token(), tbl_token(tbl), bits_token(bits), fast)
-                r = parse_ok(ctx.corr(key))
+                # (graph and table live in two long-lived arrays that are rewritten in place for every row x pattern)
+                bufs = reused_buffers(g, tbl)
+                r = parse_ok(ctx.corr(key, bufs))
                 if r is None or r[0] == "-":
                     ctx.fail("encode failed on a one-vertex digit probe", line=key)
                     continue
@@ -1820,7 +1865,7 @@ def C18(ctx):
                     if NUC.index(first) != exp:
                         ctx.fail("digit does not select the live arc with the d-th smallest table entry", line=key,
                                  strand=r[0], expected=NUC[exp])
-                dd = ctx.corr("dec %s %s 1 %s %d %d None" % (g.token(), tbl_token(tbl), r[0], len(bits), fast))
+                dd = ctx.corr("dec %s %s 1 %s %d %d None" % (g.token(), tbl_token(tbl), r[0], len(bits), fast), bufs)
                 if dd != "ok " + bits_token(bits):
                     ctx.fail("decode does not invert the digit map", line=key, observed=dd)
                 ctx.case(key, list(row) != [0, 1, 2, 3] and 2 <= len(live) <= 3, "live=%d" % len(live))
@@ -1866,7 +1911,7 @@ def C18(ctx):
             ctx.fail("the same seed given as a NumPy integer does not reproduce the table", k=k, seed=seed,
                      seed_type=type(np_seed).__name__)
         for n, v in snap.items():
-            if vars(SW).get(n) != v:
+            if not _same_value(vars(SW).get(n), v):
                 ctx.fail("module-level state changed by create_random_shuffles", name=n)
         ctx.case("shuf %d %d" % (k, seed), not np.array_equal(t1, other), "table")
         # the table is a function of (k, seed) in the model too: MT19937 seeded once + NumPy's legacy shuffle
@@ -1980,6 +2025,28 @@ def canon(x):
 def C20(ctx):
     rng = ctx.rng
     import copy
+    # messages whose raw buffers coincide although they are different messages (an int64 [1, 0] and the uint8 / int32 / bool
+    # message with the same bytes): one after the other in one process
+    for it in range(ctx.n(20, 300)):
+        n_ = rng.choice([1, 2, 3])
+        a_bits = [rng.randrange(2) for _ in range(n_)]
+        a_bits[0] = 1
+        first = np.array(a_bits, dtype=np.int64)
+        raw = first.tobytes()
+        for dt in (np.uint8, np.int32, np.int16):      # (a BOOLEAN array is not a bit array of the library: str(True) is not a digit)
+            second = np.frombuffer(raw, dtype=dt).copy()
+            if not all(int(x) in (0, 1) for x in second):
+                continue
+            for msg in (first, second, first.tolist(), [int(x) for x in second], first, second):
+                key = "b2n " + proto.enc_bits([int(x) for x in msg])
+                st, got_s = proto.guarded(lambda: OP.bit_to_number(msg, is_string=True))
+                st2, got_i = proto.guarded(lambda: OP.bit_to_number(msg, is_string=False))
+                val = int("".join(str(int(x)) for x in msg), 2)
+                if st != "ok" or st2 != "ok" or str(got_s) != str(val) or int(got_i) != val:
+                    ctx.fail("bit_to_number depends on what was converted before (messages with coinciding raw buffers)",
+                             message=[int(x) for x in msg][:40], dtype=str(getattr(msg, "dtype", type(msg).__name__)),
+                             observed=str((got_s, got_i))[:120], expected=val)
+            ctx.case("byte-coincidence %s %s" % (a_bits, np.dtype(dt).name), True, "coinciding-buffers")
     # results that could be assembled from recycled memory: a fast-mode decode asked for MORE bits than the strand carries
     # (a truncated read), repeated after calls that left all-one / all-zero buffers of the same size behind
     for it in range(ctx.n(25, 400)):
@@ -2146,8 +2213,14 @@ def C20(ctx):
             before = {n: snapshot(x) for n, x in shared.items()}
             verbose = rng.random() < 0.4
             buf = io.StringIO()
+            np.random.seed(12345 + len(name))
+            rng_before = snapshot(list(np.random.get_state()))
             with contextlib.redirect_stdout(buf):
                 got = proto.guarded(lambda: canon(calls[name][0](verbose)), 60)
+            if name not in ("shuffles", "capacity_multi") and snapshot(list(np.random.get_state())) != rng_before:
+                # only the two randomised calls may draw from (or reseed) NumPy's global generator: a deterministic call that
+                # advances it changes what a LATER randomised call returns for the same seed
+                ctx.fail("a deterministic call changed the state of NumPy's global random generator", call=name, history=hist)
             if got != iso[name]:
                 ctx.fail("call in a history returns something else than the same call on fresh equal arguments"
                          + (" (verbose on)" if verbose else ""), call=name, history=hist, observed=str(got)[:300],
